@@ -574,6 +574,14 @@ func (s *Sim) dispatch(ev *Event) {
 		n.tm.consumed = true
 		n.tm.armed = false
 		h, v := n.tm.h, n.tm.v
+		if n.d != nil && n.tip().Idx+1 > n.d.BlockIndex {
+			// the ledger has moved on (block sync) and the application has not called Reset yet:
+			// the live callbacks already answer for the next height
+			s.note("timeout_while_ledger_ahead_of_library")
+			if s.sc.MaxTPB > 0 && n.d.IsPrimary() && v == 0 && !n.d.RequestSentOrReceived() && s.sc.TPBAt(n.tip().Idx+1) != s.sc.TPBAt(n.d.BlockIndex) {
+				s.note("primary_timeout_while_ledger_ahead_and_block_time_changed")
+			}
+		}
 		n.call(&Step{Op: OpTimeout, TH: h, TV: v}, func() { n.d.OnTimeout(h, v) })
 	case EvAppReset:
 		n := s.nodes[ev.Node]
